@@ -68,10 +68,56 @@ DRIVERS = ("CppCheck::checkInternal", "CppCheck::checkBuffer", "CppCheck::checkN
            "operator()")
 
 
-def phase_function(stderr_text):
-    """For a hang: the analysis phase that does not return = the cppcheck function called by the innermost 'driver' frame
-    (the frames inside it change from run to run, this one does not)."""
-    frames = [(re.sub(r"<.*>", "<>", re.sub(r"\(.*$", "", m.group(1))).strip(), m.group(2)) for m in FRAME.finditer(stderr_text)]
+GDBFRAME = re.compile(r"^#\d+\s+(?:0x[0-9a-f]+ in )?(.*) at (/\S+):(\d+)\s*$", re.M)
+
+
+def probe_phase(exe, rec, cpu_s=4.0):
+    """Where does a hanging input hang?  Replay it in the harness, wait until it has used cpu_s CPU seconds, take a
+    backtrace with gdb from outside (nothing runs inside the hanging process) and reduce it to the phase function."""
+    cmd = [exe, "--repo", REPO, "--exe", build.cppcheck("asan"), "--replay-hex", rec["input_hex"], "--lang", rec["lang"],
+           "--optset", str(rec["optset"]), "--limit", "100000"]
+    p = subprocess.Popen(cmd, stdout=subprocess.PIPE, stderr=subprocess.DEVNULL)
+    try:
+        tick = os.sysconf("SC_CLK_TCK")
+
+        def cpu():
+            f = open("/proc/%d/stat" % p.pid).read().rsplit(")", 1)[1].split()
+            return (int(f[11]) + int(f[12])) / tick
+        while True:                                   # the harness says "replaying ..." right before the analysis starts
+            line = p.stdout.readline()
+            if not line or line.startswith(b"replaying"):
+                break
+        t0 = time.time()
+        try:
+            c0 = cpu()
+            while p.poll() is None and time.time() - t0 < 900 and cpu() - c0 < cpu_s:
+                time.sleep(0.5)
+        except (OSError, IndexError, ValueError):
+            pass
+        if p.poll() is not None:
+            return "returned-when-replayed"
+        try:
+            g = subprocess.run(["gdb", "-p", str(p.pid), "-batch", "-ex", "bt 60"], stdout=subprocess.PIPE, stderr=subprocess.DEVNULL,
+                               timeout=300)
+        except (OSError, subprocess.TimeoutExpired):
+            return "unknown"
+        out = g.stdout.decode("utf-8", "replace")
+    finally:
+        p.kill()
+        p.wait()
+    frames = []
+    for m in GDBFRAME.finditer(out):
+        fn, path = m.group(1), m.group(2)
+        cut = fn.rfind(" (")
+        if cut > 0:
+            fn = fn[:cut]
+        fn = re.sub(r"\[abi:\w+\]", "", fn)
+        fn = re.sub(r"\(.*$", "", re.sub(r"<.*>", "<>", fn)).strip()
+        frames.append((fn, path))
+    return _phase(frames)
+
+
+def _phase(frames):
     frames = [f for f in frames if "/repo/" in f[1] or f[1].startswith(REPO)]
     phase = None
     for i in range(len(frames) - 1, -1, -1):          # outermost -> innermost
@@ -91,7 +137,7 @@ def crash_key(rec):
         what = re.sub(r"[^A-Za-z0-9_:. -]", "", rec.get("exception", ""))[:60]
         return "exception:%s:%s" % (what, fam)
     if rec["type"] == "hang":
-        return "hang:%s:%s" % (phase_function(err), fam)
+        return "hang:%s:%s" % (rec.get("phase", "unknown"), fam)
     kind = "signal" if rec["status"].startswith("signal") else "abort"
     m = SUMMARY.search(err)
     if m:
@@ -152,9 +198,13 @@ def main(tier, replay=None):
     if replay:
         return replay_case(exe, replay["artefact"])
     jobs = min(16, os.cpu_count() or 4)
-    deadline = max(20, ctx.time_left() - (35 if tier == "quick" else 150))
+    deadline = max(20, ctx.time_left() - (65 if tier == "quick" else 200))
     # quick: 10 CPU-seconds per input (50 s alone before 'hang'); thorough: 20 s / 100 s
-    rc, recs, stats, err = run_harness(exe, tier, jobs, deadline, ("--limit", "10") if tier == "quick" else ("--limit", "20"))
+    extra = ["--limit", "10" if tier == "quick" else "20"]
+    if os.environ.get("VERIF_C13_RANGE"):            # debugging aid: only a slice of the index space, "from:to"
+        a, b = os.environ["VERIF_C13_RANGE"].split(":")
+        extra += ["--from", a, "--to", b]
+    rc, recs, stats, err = run_harness(exe, tier, jobs, deadline, extra)
     if rc != 0 or stats is None:
         ctx.violation("harness:failed", "garbage harness failed rc=%s: %s" % (rc, err[-1500:]), {"stderr": err[-4000:]})
         return ctx.finish(rule="harness failed")
@@ -163,8 +213,13 @@ def main(tier, replay=None):
         if t == "timeout-tolerated":
             ctx.bump("timeouts_tolerated_fuzz_timeout_corpus")
             continue
+        if t == "timeout-inconclusive":       # exceeded the per-input CPU limit, then starved of CPU when re-run alone
+            ctx.bump("watchdog_inconclusive_machine_too_busy")
+            continue
         if t not in ("crash", "exception", "hang"):
             continue
+        if t == "hang":
+            r["phase"] = probe_phase(exe, r)
         key = crash_key(r)
         fn, path = top_function(r.get("stderr", ""))
         what = "%s on %s input (%s, %s): %s %s; input %r" % (t, r["kind"], r["lang"], r["options"], r["status"],
@@ -172,6 +227,7 @@ def main(tier, replay=None):
         art = {k: r[k] for k in ("type", "index", "family", "kind", "descr", "lang", "optset", "options", "input_hex", "input_text",
                                  "status", "exception", "reproduced_alone", "block_from")}
         art["stderr"] = r.get("stderr", "")[:6000]
+        art["phase"] = r.get("phase")
         art["tier"] = tier
         if r.get("reproduced_alone") == 0:
             key += ":only-after-earlier-inputs"
@@ -193,7 +249,7 @@ def main(tier, replay=None):
                     "slow_but_finished_within_5x": stats["slow_but_finished"], "jobs": stats["jobs"],
                     "states": done, "transitions": done, "traces_validated_against_impl": done})
     ctx._distinct.update("accepted-%d" % i for i in range(acc))
-    if stats["capped"]:
+    if stats["capped"] or os.environ.get("VERIF_C13_RANGE"):
         ctx.capped = True
     # written-out samples of this run: the first accepted-looking inputs of two families
     for idx in (2300, 6000):
